@@ -464,6 +464,33 @@ class Program:
             cur = nxt
         return cur
 
+    def private_helpers(self, fn: FunctionInfo, depth: int = 2) -> list[FunctionInfo]:
+        """Private functions of the same module / private methods of the same class hierarchy that fn calls (transitively up to depth):
+        the pieces an 'extract helper' refactoring leaves behind. fn itself comes first."""
+        out, seen, frontier = [fn], {fn.qualname}, [fn]
+        for _ in range(depth):
+            nxt = []
+            for f in frontier:
+                ps = f.params()
+                selfn = ps[0].arg if (f.cls is not None and ps and not f.is_staticmethod) else None
+                for call in ast.walk(f.node):
+                    if not isinstance(call, ast.Call):
+                        continue
+                    tgt = None
+                    cf = call.func
+                    if isinstance(cf, ast.Name) and cf.id.startswith("_"):
+                        q = self.resolve_name(f.module, cf.id)
+                        tgt = self.functions.get(q) if q else None
+                    elif isinstance(cf, ast.Attribute) and cf.attr.startswith("_") and not cf.attr.startswith("__") and isinstance(cf.value, ast.Name) \
+                            and f.cls is not None and cf.value.id in (selfn, "cls", f.cls.name):
+                        tgt = self.lookup(f.cls, cf.attr)
+                    if tgt is not None and tgt.qualname not in seen:
+                        seen.add(tgt.qualname)
+                        out.append(tgt)
+                        nxt.append(tgt)
+            frontier = nxt
+        return out
+
     def find_func(self, qual_or_short: str) -> FunctionInfo | None:
         try:
             return self.func(qual_or_short)
